@@ -5,13 +5,18 @@ from harness.c19_build import G, TPT
 
 
 def rms_pattern(g, x, scale, *, xdtype, compute, cast_back, scale_cast, mul_order, eps, eps_shape, eps_dtype=None,
-                exponent=2.0, axes=(-1,), eps_input=None, keepdims=1):
+                exponent=2.0, axes=(-1,), eps_input=None, keepdims=1, reduce_attrs=("keepdims", "noop_with_empty_axes")):
     """x * Reciprocal(Sqrt(ReduceMean(Pow(x,2),[-1]) + eps)) (* scale), with the optional Casts the pattern accepts.
     compute: None (no Cast on x) or a dtype name."""
     cdt = compute or xdtype
     xc = g.op("Cast", [x], to=TPT[compute]) if compute else x
     sq = g.op("Pow", [xc, g.const(exponent, cdt)])
-    mean = g.op("ReduceMean", [sq, g.const(list(axes), "int64")], keepdims=keepdims, noop_with_empty_axes=0)
+    ra = {}
+    if "keepdims" in reduce_attrs:
+        ra["keepdims"] = keepdims            # absent = the operator default (1)
+    if "noop_with_empty_axes" in reduce_attrs:
+        ra["noop_with_empty_axes"] = 0       # absent = the operator default (0)
+    mean = g.op("ReduceMean", [sq, g.const(list(axes), "int64")], **ra)
     if eps_input is not None:
         e = eps_input
     else:
@@ -40,7 +45,7 @@ def rms_model(p):
     y = rms_pattern(g, x, s, xdtype=p["xdtype"], compute=p["compute"], cast_back=p["cast_back"],
                     scale_cast=p.get("scale_cast"), mul_order=p["mul_order"], eps=p["eps"],
                     eps_shape=p.get("eps_shape", []), exponent=p.get("exponent", 2.0), axes=p.get("axes", (-1,)),
-                    eps_input=eps_input)
+                    eps_input=eps_input, reduce_attrs=p.get("reduce_attrs", ("keepdims", "noop_with_empty_axes")))
     g.op("Identity", [y], out="y")
     g.out("y", p["out_dtype"], None)
     return g
@@ -65,7 +70,9 @@ def skip_model(p):
     ssum = g.op("Add", [sk, a] if p["add_order"] == 0 else [a, sk])
     if p["bias"] == "post":
         ssum = g.op("Add", [ssum, bias])
-    attrs = dict(axis=p.get("axis", -1))
+    attrs = {}
+    if p.get("axis", -1) is not None:        # axis=None: attribute absent (operator default -1)
+        attrs["axis"] = p.get("axis", -1)
     if p.get("epsilon") is not None:
         attrs["epsilon"] = p["epsilon"]
     if p.get("stash_type") is not None:
@@ -92,10 +99,11 @@ def layer_norm_model(p):
     x = g.inp("x", dt, p.get("decl_shape", shape), shape)
     sc = g.inp("scale", dt, p.get("scale_shape", [shape[-1]]))
     axes = list(p.get("axes", (-1,)))
-    mean = g.op("ReduceMean", [x, g.const(axes, "int64")], keepdims=1)
+    ka = {"keepdims": 1} if p.get("keepdims_attr", True) else {}      # absent = the operator default (1)
+    mean = g.op("ReduceMean", [x, g.const(axes, "int64")], **ka)
     d = g.op("Sub", [x, mean])
     dd = g.op("Mul", [d, d]) if p["sq"] == "mul" else g.op("Pow", [d, g.const(p.get("exponent", 2.0), dt)])
-    var = g.op("ReduceMean", [dd, g.const(axes, "int64")], keepdims=1)
+    var = g.op("ReduceMean", [dd, g.const(axes, "int64")], **ka)
     e = g.const(np.full(p.get("eps_shape", []), p["eps"]), dt)
     std = g.op("Sqrt", [g.op("Add", [var, e])])
     if p["norm"] == "recip":
